@@ -897,6 +897,7 @@ def crosscheck(fn, leaves, rep, where, pmax, pmin):
 
 
 RULES = {
+    "R-C19-asis": "the dtype fit_dtype answers is the dtype of the dense output: it is not widened afterwards by numpy.promote_types / result_type (signed with unsigned of equal width doubles the width)",
     "R-C19-stored": "every key of an index has rows (no library operation stores an empty entry: imported from C07 rule b): the dtypes are fitted on the keys, so a key without rows makes the result wider than the values actually stored",
     "R-C19-fresh": "to_array / collapsed / fit_dtype keep no state: the dtype is fitted to the current content at every call (frame analysis shared with C17)",
     "R-C19-callers": "the callers named by the property hand fit_dtype bounds that cover every value they store: dense output (to_array) and collapsed pass a minimum for category values, collapsed sizes its output from all codes it can write, and the INDX writer sizes the coordinate word from max(coordinates, common) (imported from the C01/C06/C10 analyses)",
@@ -940,6 +941,31 @@ def main(tier):
             k17 += 1
     c17.analyse_root(prog, prog.func("iindexes", "fit_dtype"), "pure", rep, st17, RA="R-C19-fresh", RB="R-C19-fresh", extra=False)
     rep.floor("R-C19-fresh", 3, k17 + 1)
+    # R-C19-asis: "and no wider": the dtype fit_dtype answers is the dtype of the output - it is not passed through NumPy's
+    # promotion afterwards (promote_types(int8, uint8) is int16: signed with unsigned of the same width doubles the width)
+    import ast as _ast
+    PROMO = ("promote_types", "result_type", "find_common_type", "common_type")
+    for nm in ("to_array", "collapsed"):
+        f19 = ii.methods.get(nm)
+        if f19 is None:
+            rep.undecided("R-C19-asis", "iindexes:iindex.%s" % nm, "the fitted dtype is used as it is", "method not found")
+            continue
+        fitted = set()
+        for st in _ast.walk(f19.node):
+            if isinstance(st, _ast.Assign) and any(isinstance(c, _ast.Call) and isinstance(c.func, _ast.Name) and c.func.id == "fit_dtype" for c in _ast.walk(st.value)):
+                for t in st.targets:
+                    fitted.update(n.id for n in _ast.walk(t) if isinstance(n, _ast.Name))
+        promos = [c for c in _ast.walk(f19.node) if isinstance(c, _ast.Call) and isinstance(c.func, _ast.Attribute) and c.func.attr in PROMO]
+        hit = [c for c in promos if any((isinstance(n, _ast.Call) and isinstance(n.func, _ast.Name) and n.func.id == "fit_dtype") or (isinstance(n, _ast.Name) and n.id in fitted) for a in c.args for n in _ast.walk(a))]
+        cons = "%s: the fitted dtype is used as it is (no promotion afterwards)" % nm
+        if hit:
+            rep.violated("R-C19-asis", "%s@%d" % (f19.fq, hit[0].lineno), cons,
+                         "the result of fit_dtype is passed through numpy.%s: promoting a signed type with an unsigned one of the same width (the fill value's own minimal type) yields the next wider signed type - wider than any stored value needs"
+                         % hit[0].func.attr, witness={"inputs": "to_array(mapping={1: 1, 2: 2, 3: -1}): int16 instead of int8"})
+        elif promos:
+            rep.undecided("R-C19-asis", "%s@%d" % (f19.fq, promos[0].lineno), cons, "numpy.%s is used in %s; whether it touches the fitted dtype is not recognised" % (promos[0].func.attr, nm))
+        else:
+            rep.proved("R-C19-asis", f19.fq, cons, "no promote_types / result_type in %s" % nm)
     # R-C19-stored: "no wider than the values stored" - the dtype is fitted on the KEYS of the index (plus the common
     # value), so a key whose row list is empty (a category that occurs nowhere) widens the result: no library operation
     # stores an empty entry (R-C07-b of the C07 analysis)
